@@ -37,7 +37,7 @@ def si_classes(obligation):
     known_findings.json with 'obligation' == obligation and a 'classes' list."""
     out = []
     for f in load_findings().get("findings", []):
-        if f.get("obligation") == obligation:
+        if f.get("obligation") == obligation or obligation in f.get("obligations", []):
             for cl in f.get("classes", []):
                 out.append({"finding": f["id"], "class": cl})
     return out
